@@ -271,6 +271,9 @@ pub(crate) mod __verif_k {
     prefix_harness!(c08_keyword_als_stel, 10, 2, ["als", "stel"]);
     prefix_harness!(c08_keyword_stop_nee, 10, 2, ["stop", "nee"]);
     prefix_harness!(c08_keyword_ja, 10, 2, ["ja"]);
+    // a keyword is a keyword whatever follows the word: every non-ASCII white-space form, a non-ASCII non-letter; and a
+    // non-ASCII LETTER after it makes it an identifier
+    prefix_harness!(c08_keyword_then_nonascii, 14, 0, ["stop\u{2028}", "ja\u{0085}", "anders\u{200E}", "als\u{2029}x", "nee\u{200F}", "stel\u{2028}a", "zolang€", "jaé", "stopπ "]);
     prefix_harness!(c08_keyword_case_x, 10, 2, ["Als", "jA"]);
     prefix_harness!(c08_keyword_cut_a_x, 14, 2, ["antwoor", "volgend"]);
     prefix_harness!(c08_keyword_cut_b_x, 14, 2, ["functi", "zolan", "ander"]);
